@@ -466,6 +466,19 @@ struct RecCon : ob::Constraint
             double x2 = x[0] * x[0];
             out[0] = x[n - 1] - 25.0 * (x2 * x2);
         }
+        else if (kind == "hemi")
+        {
+            // upper unit hemisphere as a graph: NOT finite everywhere (NaN outside the unit cylinder)
+            double q = 0;
+            for (unsigned i = 0; i + 1 < n; ++i)
+                q += x[i] * x[i];
+            out[0] = x[n - 1] - std::sqrt(1.0 - q);
+        }
+        else if (kind == "logg")
+        {
+            // graph of 0.5*log(1 + x0): NaN for x0 < -1, +inf at x0 = -1
+            out[0] = x[n - 1] - 0.5 * std::log(1.0 + x[0]);
+        }
         else  // nearpar
         {
             out[0] = x[0] + x[1] - 0.2;
@@ -542,6 +555,23 @@ struct RecCon : ob::Constraint
         else if (kind == "quarticg")
         {
             out(0, 0) = -100.0 * x[0] * x[0] * x[0];
+            out(0, n - 1) += 1.0;
+        }
+        else if (kind == "hemi")
+        {
+            // kept finite outside the domain (see the sphere above: a non-finite Jacobian crashes Eigen's SVD solve)
+            double q = 0;
+            for (unsigned i = 0; i + 1 < n; ++i)
+                q += x[i] * x[i];
+            double sq = std::sqrt(1.0 - q);
+            for (unsigned i = 0; i + 1 < n; ++i)
+                out(0, i) = sq > 0 ? x[i] / sq : 0.0;
+            out(0, n - 1) = 1.0;
+        }
+        else if (kind == "logg")
+        {
+            double a = 1.0 + x[0];
+            out(0, 0) = a > 0 ? -0.5 / a : 0.0;
             out(0, n - 1) += 1.0;
         }
         else
@@ -800,7 +830,7 @@ int main()
         }
         if (n < 3 || n > 8 || (spaceKind != "proj" && spaceKind != "atlas" && spaceKind != "tb"))
             throw 1;
-        static const char *kinds[] = {"sphere", "spherenj", "torus", "plane", "spherepl", "quartic", "quarticg", "nearpar", "isect"};
+        static const char *kinds[] = {"sphere", "spherenj", "torus", "plane", "spherepl", "quartic", "quarticg", "nearpar", "isect", "hemi", "logg"};
         bool okk = false;
         for (auto k : kinds)
             okk |= conKind == k;
@@ -1125,6 +1155,57 @@ int main()
                 bool r = csi->getMotionValidator()->checkMotion(a, b, lv);
                 std::cout << "v=" << r << " first= " << showState(c) << " second=" << vp::bits(lv.second) << " |" << g_ev
                           << "\n";
+            }
+            else if (op == "gms" && t.size() == 2 + 2 * n && (t[1] == "0" || t[1] == "1"))
+            {
+                // (Constrained|TangentBundle)SpaceInformation::getMotionStates
+                i = 2;
+                readState(t, i, a);
+                readState(t, i, b);
+                std::vector<ob::State *> g;
+                unsigned ret = csi->getMotionStates(a, b, g, 0, t[1] == "1", true);
+                std::string o = "ret=" + std::to_string(ret) + " n=" + std::to_string(g.size());
+                for (auto *s : g)
+                {
+                    o += " " + showState(s);
+                    css->freeState(s);
+                }
+                std::cout << o << " |" << g_ev << "\n";
+            }
+            else if (op == "sicm" && t.size() == 2 + 2 * n && (t[1] == "0" || t[1] == "1"))
+            {
+                // SpaceInformation::checkMotion(s1, s2, lastValid) (virtual: TangentBundleSpaceInformation post-processes)
+                i = 2;
+                readState(t, i, a);
+                readState(t, i, b);
+                auto &cx = *c->as<ob::ConstrainedStateSpace::StateType>();
+                for (unsigned k = 0; k < n; ++k)
+                    cx[k] = SENT_STATE;
+                if (atlas)
+                    c->as<ob::AtlasStateSpace::StateType>()->setChart(nullptr);
+                std::pair<ob::State *, double> lv(t[1] == "1" ? c : nullptr, SENT_FRAC);
+                bool r = csi->checkMotion(a, b, lv);
+                std::cout << "v=" << r << " first= " << showState(c) << " second=" << vp::bits(lv.second) << " |" << g_ev
+                          << "\n";
+            }
+            else if (op == "vs" && t.size() >= 3 && vp::parseNat(t[1]))
+            {
+                // ConstrainedValidStateSampler::sample / sampleNear with attempts_ = t[1]
+                auto vss = csi->allocValidStateSampler();
+                vss->setNrAttempts((unsigned)*vp::parseNat(t[1]));
+                i = 3;
+                bool r;
+                if (t[2] == "u" && t.size() == 3)
+                    r = vss->sample(a);
+                else if (t[2] == "n" && t.size() == 4 + n)
+                {
+                    readState(t, i, b);
+                    double d = needBits(t, i);
+                    r = vss->sampleNear(a, b, d);
+                }
+                else
+                    throw BadOp();
+                std::cout << "ret=" << r << " s= " << showState(a) << " |" << g_ev << "\n";
             }
             else if (op == "plan" && t.size() == 3 + 2 * n)
             {
